@@ -407,9 +407,9 @@ impl ErasedSegment {
                     continue;
                 }
 
-                let start_diff = pos_marker.templated_slice.start - templated_idx;
-
-                if start_diff > 0 || !insert_buff.is_empty() {
+                // A segment may start before the running index when a fix moved code
+                // backwards: that is "no gap", not an underflow.
+                if pos_marker.templated_slice.start > templated_idx || !insert_buff.is_empty() {
                     let fixed_raw = std::mem::take(&mut insert_buff);
                     let raw_segments = segment.get_raw_segments();
                     let first_segment_pos = raw_segments[0].get_position_marker().unwrap();
@@ -429,15 +429,23 @@ impl ErasedSegment {
                 templated_idx = pos_marker.templated_slice.end;
             }
 
-            let end_diff = pos.templated_slice.end - templated_idx;
-            if end_diff != 0 || !insert_buff.is_empty() {
+            if pos.templated_slice.end != templated_idx || !insert_buff.is_empty() {
                 let source_slice = source_idx..pos.source_slice.end;
                 let templated_slice = templated_idx..pos.templated_slice.end;
 
-                let templated_str = templated_file.templated_str.as_ref().unwrap()
-                    [templated_slice.clone()]
-                .to_owned();
-                let source_str = templated_file.source_str[source_slice.clone()].to_owned();
+                // An inverted range reads as the empty string.
+                let templated_str = templated_file
+                    .templated_str
+                    .as_ref()
+                    .unwrap()
+                    .get(templated_slice.clone())
+                    .unwrap_or_default()
+                    .to_owned();
+                let source_str = templated_file
+                    .source_str
+                    .get(source_slice.clone())
+                    .unwrap_or_default()
+                    .to_owned();
 
                 acc.push(FixPatch::new(
                     templated_slice,
